@@ -20,7 +20,7 @@
 (*         offY = 0, pitch = rowB = cols                                   *)
 (*                                                                         *)
 (* Events (k = kind); x y w h n are 32-bit words <<hi, lo>> (16-bit limbs) *)
-(*  init   cons w h pitch bpp ci gw gh bpr offY clear dfg dbg fd pal rows cols nrows *)
+(*  init   cons w h pitch bpp ci gw gh bpr offY clear dfg dbg fd pal rows cols nrows mapped fblen *)
 (*  write  ch fg bg x y      res d guard                                   *)
 (*  fill   x y w h fg bg     res d guard                                   *)
 (*  scroll dir n             res d guard                                   *)
@@ -30,7 +30,9 @@
 (* call, one span <<row, col, values>> (0-based) per changed row running   *)
 (* from the first to the last changed element of that row (so everything   *)
 (* outside the spans kept its value and the spans give the new values).    *)
-(* guard: number of guard elements before/after the buffer that changed.   *)
+(* guard: number of bytes that changed before the buffer or behind         *)
+(* height*pitch (watched up to a page past the next page boundary; the      *)
+(* length the driver gave its slice - fblen - is logged, never assumed).    *)
 (* The font data fd and the palette pal of a case are not copied into the  *)
 (* monitor state: Mon takes the init event of the current case as `big`.   *)
 (*                                                                         *)
@@ -255,6 +257,8 @@ MonInit(s, e) ==
    cs |-> <<
      IF e.cols = g.cols /\ e.nrows = g.rows THEN <<>>
      ELSE <<"grid derived from font and logo differs", "got", e.cols, e.nrows, "want", g.cols, g.rows>>,
+     IF e.mapped >= e.h * e.pitch THEN <<>>
+     ELSE <<"the driver mapped less memory than the framebuffer needs", "mapped elements", e.mapped, "height*pitch", e.h * e.pitch>>,
      IF Len(e.rows) = e.h /\ \A r \in 1..e.h : Len(e.rows[r]) = e.pitch THEN <<>> ELSE <<"harness: malformed init event">> >>]
 
 MonCall(s, e, big) ==
